@@ -6,6 +6,9 @@ ROOT = os.path.dirname(os.path.dirname(os.path.abspath(__file__)))
 PAGER = "TLA+ mechanism model Pager.tla checked exhaustively by TLC (all interleavings of readers, savepoint handles and every critical section of the writer), "
 
 CLAIMS = {
+ "C15": dict(cat="exploration", tech="TLA+ spec KeyOrder.tla (separator rules transcribed, contract checked by TLC over small domains) + enumeration of real encodings of all built-in key types judged by TLC (KeyOrderTrace.tla)",
+   text="exploration with a specification oracle: the contract (order equals value order, a <= sep < b, no longer than a, valid encoding, round trip) is stated in TLA+, the separator rules are model-checked on small domains, and every ordered pair of a per-type corpus of real encodings is judged by TLC.",
+   note="pure functions: the specification is the oracle, not an explorer; wider-than-8-bit types are sampled (extremes + byte-position + random)", ref="DESIGN.md 4/C15"),
  "C20": dict(cat="model_checking", tech="TLA+ specs Backend.tla (usage contract) and Close.tla (close hand-off) checked by TLC; TLC trace validation (BackendTrace.tla) of every backend call recorded from histories, failing opens, fault-injected opens, deferred close, strace of a read-only database, and a forced close race",
    text="every call redb makes on a monitored backend must be an enabled step of Backend.tla: within the length, none after close, exactly one close by the time redb lets go of the backend - across histories, all failing-open variants incl. an I/O error at every call of a repairing open, Database dropped with a live writer; read-only file database via strace. Found and fixed one defect; one known finding (forced race).",
    note="monitor is sequentially consistent; read-only path observed via strace on a real file", ref="DESIGN.md 4/C20"),
